@@ -21,9 +21,12 @@ import (
 type Server struct {
 	workerapipb.UnimplementedWorkerServiceServer
 
-	Pull          *pullapi.Server
-	ResolveRoute  func(endpoint string) (route string, ok bool)
-	Authorize     Authorizer
+	Pull         *pullapi.Server
+	ResolveRoute func(endpoint string) (route string, ok bool)
+	Authorize    Authorizer
+	// PlanRequest, when set, replaces the Authorize + ResolveRoute pair: one
+	// decision against one consistent view of the configuration.
+	PlanRequest   func(ctx context.Context, endpoint string) (route string, authorized bool, found bool)
 	MaxLeaseBatch int
 }
 
@@ -198,6 +201,17 @@ func (s *Server) Extend(ctx context.Context, req *workerapipb.ExtendRequest) (*e
 }
 
 func (s *Server) resolveAndAuthorize(ctx context.Context, endpoint string) (string, error) {
+	if s.PlanRequest != nil {
+		route, authorized, found := s.PlanRequest(ctx, endpoint)
+		if !authorized {
+			return "", status.Error(codes.Unauthenticated, "request is not authorized")
+		}
+		verifhook.Point("worker.after-authorize")
+		if !found {
+			return "", status.Error(codes.NotFound, "pull endpoint is not configured")
+		}
+		return route, nil
+	}
 	if s.Authorize != nil && !s.Authorize(ctx, endpoint) {
 		return "", status.Error(codes.Unauthenticated, "request is not authorized")
 	}
